@@ -172,7 +172,14 @@ fn iso_valid() -> BS<String> {
 /// times where the validity rules branch (end of June / December at 23:59, where the leap-second years are consulted)
 fn extreme_year_valid() -> BS<String> {
     (
-        prop::sample::select(vec![2_147_483_647i64, 2_147_483_646, 2_147_483_648, 5_879_610, 5_879_611, 5_879_612, 3_276_700, 3_276_800, 99_999, 10_000, 32_767, 65_536]),
+        prop_oneof![
+            2 => prop::sample::select(vec![2_147_483_647i64, 2_147_483_646, 2_147_483_648, 5_879_610, 5_879_611, 5_879_612, 3_276_700, 3_276_800, 99_999, 10_000, 32_767, 65_536]),
+            // years whose day count from 1900 is about 2^k (k = 16 .. 33): where a day counter of that width ends
+            2 => (16u32..=33, -4000i64..=4000).prop_map(|(k, d)| ((1i64 << k) as f64 / 365.2425) as i64 + 1900 + d),
+            // years whose second count is about 2^k (k = 40 .. 63)
+            1 => (40u32..=63, -300i64..=300).prop_map(|(k, d)| ((1u64 << k) as f64 / 31_556_952.0) as i64 + 1900 + d),
+            1 => (any::<bool>(), log_mag(31)).prop_map(|(_, m)| m as i64),
+        ],
         prop::sample::select(vec![(12u32, 31u32), (6, 30), (1, 1), (2, 29), (12, 30)]),
         prop::sample::select(vec![(23u32, 59u32, 0u32), (23, 59, 59), (23, 59, 60), (0, 0, 0), (12, 0, 0)]),
         any::<bool>(),
@@ -389,6 +396,21 @@ fn reject_case() -> BS<Case> {
             }
             if y > 9999 {
                 y = 9998;
+            }
+            // an out-of-range UTC offset (hour >= 24 or minute >= 60), attached to the time or after a blank; or an
+            // ordinal date with day 000 / a day beyond the year's length
+            if kind >= 6 && r % 5 == 0 {
+                let g0 = greg_of_ns1900(day as i128 * NS_D);
+                let (oh, om) = if r % 2 == 0 { (24 + r / 7 % 76, r / 11 % 60) } else { (r / 7 % 24, 60 + r / 11 % 40) };
+                let s = format!("{:04}-{:02}-{:02}T{:02}:{:02}:{:02}{}{}{:02}{}{:02}", g0.y, g0.m, g0.d, r / 13 % 24, r / 17 % 60, r / 19 % 60, if sp { " " } else { "" }, if r / 3 % 2 == 0 { '+' } else { '-' }, oh, if r / 23 % 4 == 0 { "" } else { ":" }, om);
+                // (no format: Format::parse does not read %z offsets at all, which no statement covers)
+                return Case { s, f: String::new(), must_reject: true };
+            }
+            if kind >= 6 && r % 5 == 1 {
+                let g0 = greg_of_ns1900(day as i128 * NS_D);
+                let len = if is_leap(g0.y) { 366 } else { 365 };
+                let doy = if r % 3 == 0 { 0 } else { len + 1 + r / 7 % (999 - len) };
+                return Case { s: format!("{:04}-{:03}", g0.y, doy), f: "%Y-%j".to_string(), must_reject: true };
             }
             let s = format!("{:04}-{:02}-{:02}{}{:02}:{:02}:{:02}{}", y, m, d, if sp { ' ' } else { 'T' }, hh, mm, ss, suffix);
             // 'Z' is only understood by the ISO parser: no format for it (the empty format rejects everything)
